@@ -156,7 +156,8 @@ def gen_case(rnd, prop, tier):
             calls.append(dict(seed=rnd.getrandbits(32), scale=rnd.choice([0.3, 1.0, 3.0, 8.0, 8.0, 60.0, 400.0]), total=rnd.choice([1.0, 1.0, 10.0, 250.0, 1e4]),
                               sweeps=rnd.choice(['enough', 'enough', 'split', 1, 2, 5]), sub=rnd.random() < 0.25))
         return dict(engine='F', attrs=attrs, sizes=sizes, cliques=cliques, oracle=oracle, structure=structure, calls=calls,
-                    total0=rnd.choice([1.0, 10.0, 100.0]), tie=rnd.choice([None, None, rnd.getrandbits(32)]), fresh_names=rnd.random() < 0.35)
+                    total0=rnd.choice([1.0, 10.0, 100.0]), tie=rnd.choice([None, None, rnd.getrandbits(32)]), fresh_names=rnd.random() < 0.35,
+                    decoy=rnd.random() < 0.3)
     # C18
     oracle = rnd.choice(['convex', 'approx', 'pairwise'])
     disjoint = rnd.random() < 0.35
@@ -267,6 +268,11 @@ def run_c16(mbi, case):
     maximal = [c for c in cliques if not any(set(c) < set(d) for d in cliques)]
     ncl = len(obj.cliques)
     kept = []
+    big_scale = 0.0
+    if kind == 'loopy' and case.get('decoy'):
+        # another oracle object over the same attribute names with another clique set is built (and stays alive) in between
+        decoy, _ = guard(lambda: mbi.FactorGraph(dom, [(a,) for a in attrs], 1.0, convex=False, iters=1), 'FactorGraph')
+        faults['second-oracle-object-same-attributes'] = 1
     for ci, call in enumerate(case['calls']):
         r = random.Random(call['seed'])
         total = call['total']
@@ -281,6 +287,8 @@ def run_c16(mbi, case):
         if call['sub'] and kind == 'gbp' and len(obj.cliques) > len(maximal):
             probes['potential-on-intersection-region'] = probes.get('potential-on-intersection-region', 0) + 1
         theta = mbi.CliqueVector(pots)
+        big_scale = max(big_scale, call['scale'])
+        theta_before = {cl: pots[cl].values.copy() for cl in pots}
         if obj.total != total:
             faults['total-changed-between-calls'] = faults.get('total-changed-between-calls', 0) + (1 if ci > 0 else 0)
         obj.total = total
@@ -307,6 +315,9 @@ def run_c16(mbi, case):
         if v:
             viol.append(v.as_dict())
             break
+        if any(not np.array_equal(pots[cl].values, theta_before[cl]) for cl in pots):
+            viol.append(Violation('c16-input-mutated', 'c16-input-mutated:' + kind, 'belief_propagation changed the potentials it was given (%s)' % tag).as_dict())
+            break
         bad = False
         for cl in obj.cliques:
             if cl not in mu:
@@ -319,7 +330,7 @@ def run_c16(mbi, case):
                 viol.append(Violation('c16-valid', 'c16-valid:' + kind, 'pseudo-marginal on %s has non-finite or negative entries (%s)' % (cl, tag)).as_dict())
                 bad = True
                 break
-            if abs(arr.sum() - total) > 1e-9 * total:
+            if abs(arr.sum() - total) > (1e-9 if big_scale <= 8 else 1e-6) * total:     # beliefs of magnitude ~1e3 and more cannot be normalised to 1e-9
                 viol.append(Violation('c16-normalised', 'c16-normalised:' + kind, 'pseudo-marginal on %s sums to %r, total is %r (%s)' % (cl, float(arr.sum()), total, tag)).as_dict())
                 bad = True
                 break
@@ -436,6 +447,7 @@ def run_c18(mbi, case):
         eng.iters = call['iters']
         cb = Counter() if (ci + len(call['sub'])) % 2 == 0 else None     # half of the calls pass no callback (and go through the shared default options)
         tag = 'oracle=%s call#%d iters=%d total=%r meas=%s warm=%s callback=%s' % (oracle, ci, call['iters'], call['total'], call['sub'], case['warm'], 'yes' if cb else 'none')
+        before_bytes = [((Q_.toarray() if sparse.issparse(Q_) else np.asarray(Q_)).tobytes(), y_.tobytes()) for Q_, y_, s_, p_ in meas]
         # runaway restart recursion (finding F10) should surface as the RecursionError it is within seconds, not after minutes of
         # 1000 restarts x 50 iterations: the interpreter's recursion limit is lowered to ~250 frames above the current depth
         import sys as _sys, inspect as _inspect
@@ -453,6 +465,12 @@ def run_c18(mbi, case):
         steps += cb.calls
         if ci > 0:
             faults['estimator-reuse'] = 1
+        for (Q_, y_, s_, p_), (qb, yb) in zip(meas, before_bytes):
+            if y_.tobytes() != yb or (Q_.toarray() if sparse.issparse(Q_) else np.asarray(Q_)).tobytes() != qb:
+                viol.append(Violation('c18-caller-inputs', 'c18-caller-inputs:' + oracle, 'estimate() rewrote the caller\'s measurement arrays for %s: every later use of the same list sees other data (%s)' % (p_, tag)).as_dict())
+                break
+        if viol:
+            break
         extra = cb.calls - call['iters']
         if extra > 0:
             probes['restart-or-post-iterations'] = probes.get('restart-or-post-iterations', 0) + 1
